@@ -100,6 +100,9 @@ type SimSess struct {
 	HelloAuthID   string
 
 	outq     chan sentRec
+	Queued   int // messages handed to the sender goroutine
+	Delivered int // messages the router side accepted
+	queuedAt []time.Duration // virtual times at which the still undelivered messages were queued
 	quit     chan struct{}
 	quitOnce sync.Once
 	mu       sync.Mutex
@@ -120,6 +123,10 @@ func (s *SimSess) sender() {
 			}
 			s.mu.Lock()
 			s.deliv = append(s.deliv, r)
+			s.Delivered++
+			if len(s.queuedAt) > 0 {
+				s.queuedAt = s.queuedAt[1:]
+			}
 			s.mu.Unlock()
 		case <-s.quit:
 			return
@@ -538,10 +545,37 @@ func (e *Engine) queue(s *SimSess, m wamp.Message, opIdx int) {
 	if s.lk == nil {
 		return
 	}
+	// account first: the sender goroutine may deliver the message at once
+	s.mu.Lock()
+	s.Queued++
+	s.queuedAt = append(s.queuedAt, e.Now())
+	s.mu.Unlock()
 	select {
 	case s.outq <- sentRec{S: s.Idx, Msg: m, Op: opIdx}:
 	default:
+		s.mu.Lock()
+		s.Queued--
+		s.queuedAt = s.queuedAt[:len(s.queuedAt)-1]
+		s.mu.Unlock()
 	}
+}
+
+// OldestUndelivered returns since when (virtual time) the session's oldest
+// message has been waiting for the router to accept it.
+func (s *SimSess) OldestUndelivered() (time.Duration, bool) {
+	s.mu.Lock()
+	defer s.mu.Unlock()
+	if len(s.queuedAt) == 0 {
+		return 0, false
+	}
+	return s.queuedAt[0], true
+}
+
+// Undelivered reports how many messages of the session the router has not accepted yet.
+func (s *SimSess) Undelivered() int {
+	s.mu.Lock()
+	defer s.mu.Unlock()
+	return s.Queued - s.Delivered
 }
 
 func (e *Engine) startSession(s *SimSess) {
@@ -792,8 +826,15 @@ func (e *Engine) Run(o Oracle) *Violation {
 		}
 	}
 	// Epilogue 1: let every armed timer fire while sessions are still attached.
+	// Sessions that had stopped reading read again afterwards.
 	st := e.newStep("settle")
 	time.Sleep(24 * time.Hour)
+	for _, s := range e.Sess {
+		if s.Stalled && s.lk != nil {
+			s.Stalled = false
+			s.lk.pause(false)
+		}
+	}
 	e.settle(st)
 	e.traceStep(st)
 	if v := chk(o.OnStep(e, st), st); v != nil {
